@@ -103,7 +103,7 @@ def i_DW_OP_drop(i, fmap):
 
 @__pc
 def i_DW_OP_pick(i, fmap):
-    index = i.operands[0] * (WORD // 8)
+    index = i.operands[0].value * (WORD // 8)
     x = fmap(mem(sp + index, WORD))
     _push_(fmap, x)
 
@@ -144,7 +144,7 @@ def i_DW_OP_deref(i, fmap):
 @__pc
 def i_DW_OP_deref_size(i, fmap):
     x = _pop_(fmap)
-    size = i.operands[0] * 8
+    size = i.operands[0].value * 8
     result = fmap[mem(x, size)].zeroextend(WORD)
     _push_(fmap, result)
 
